@@ -466,8 +466,11 @@ func runHandler(t *testing.T, name string, n hx.N) {
 		sawSparseAfterFull := false
 		nd := rapid.IntRange(1, 8).Draw(t, "deliveries")
 		for i := 0; i < nd; i++ {
-			kind := rapid.IntRange(0, 6).Draw(t, "kind")
-			if kind == 5 && lastOK == nil {
+			kind := rapid.IntRange(0, 8).Draw(t, "kind")
+			if kind == 8 {
+				kind = 7
+			}
+			if (kind == 5 || kind == 7) && lastOK == nil {
 				kind = 0
 			}
 			if kind == 6 && len(okHistory) == 0 {
@@ -602,6 +605,35 @@ func runHandler(t *testing.T, name string, n hx.N) {
 					t.Fatalf("%s: after delivering (again) %s the rules in force are\n  %v\nwant\n  %v", m.name, h0.payload, got, model)
 				}
 				lastOK = h0.payload
+			case 7: // the list delivered last, again, with ONE field of one rule changed a little: a different list, to be applied
+				list, jerr := m.fromJSON(lastOK)
+				var idx []int
+				for j, r := range list {
+					if r != nil && !reflect.ValueOf(r).IsNil() {
+						idx = append(idx, j)
+					}
+				}
+				if jerr != nil || len(idx) == 0 {
+					break
+				}
+				j := idx[rapid.IntRange(0, len(idx)-1).Draw(t, "element")]
+				what := tweakOneField(t, list[j])
+				if what == "" {
+					break
+				}
+				payload := m.encode(list)
+				err := deliver(t, h, payload)
+				c.Op("deliver the last list with %s of element %d changed -> err=%v", what, j, err)
+				if err != nil {
+					t.Fatalf("%s: a decodable payload was refused: %v (%s)", m.name, err, payload)
+				}
+				model = sortedKeys(m, list)
+				if got := m.current(); fmt.Sprint(got) != fmt.Sprint(model) {
+					t.Fatalf("%s: the last list was delivered again with %s of element %d changed (%s); the rules in force are\n  %v\nwant the valid rules of the new list\n  %v", m.name, what, j, payload, got, model)
+				}
+				lastOK = payload
+				okHistory = append(okHistory, okPayload{payload, model})
+				c.Class("one-field-edit-of-the-last-list")
 			case 5: // identical re-delivery: no-op, runtime state undisturbed
 				armed := arm(m)
 				before := m.current()
@@ -627,6 +659,71 @@ func runHandler(t *testing.T, name string, n hx.N) {
 			c.NonTrivial()
 		}
 	})
+}
+
+// tweakOneField changes one field of the rule r (a pointer to a rule struct) a little, in place, and says which: an integer
+// field by one, a float field by one or by a few millionths, or the type of one key of a specific-item table
+// (the same text as an int, a string, a float or a bool). "" = nothing to change.
+func tweakOneField(t *rapid.T, r any) string {
+	v := reflect.ValueOf(r).Elem()
+	type cand struct {
+		name string
+		f    reflect.Value
+	}
+	var cs []cand
+	for i := 0; i < v.NumField(); i++ {
+		f := v.Field(i)
+		if !f.CanSet() {
+			continue
+		}
+		switch f.Kind() {
+		case reflect.Int, reflect.Int8, reflect.Int16, reflect.Int32, reflect.Int64, reflect.Uint, reflect.Uint8, reflect.Uint16, reflect.Uint32, reflect.Uint64, reflect.Float64:
+			cs = append(cs, cand{v.Type().Field(i).Name, f})
+		case reflect.Map:
+			if f.Len() > 0 {
+				cs = append(cs, cand{v.Type().Field(i).Name, f})
+			}
+		}
+	}
+	if len(cs) == 0 {
+		return ""
+	}
+	c := cs[rapid.IntRange(0, len(cs)-1).Draw(t, "field")]
+	switch c.f.Kind() {
+	case reflect.Float64:
+		d := rapid.SampledFrom([]float64{1, 0.5, 1e-6, 3e-7}).Draw(t, "delta") // (the rule managers deliberately treat thresholds closer than 1e-8 as equal)
+		c.f.SetFloat(c.f.Float() + d)
+		return fmt.Sprintf("%s (+%v)", c.name, d)
+	case reflect.Map: // map[interface{}]int64: one key changes its type, keeping its text where possible
+		keys := c.f.MapKeys()
+		sort.Slice(keys, func(a, b int) bool {
+			return fmt.Sprintf("%T%v", keys[a].Interface(), keys[a].Interface()) < fmt.Sprintf("%T%v", keys[b].Interface(), keys[b].Interface())
+		})
+		k := keys[rapid.IntRange(0, len(keys)-1).Draw(t, "key")]
+		val := c.f.MapIndex(k)
+		var nk interface{}
+		switch x := k.Interface().(type) {
+		case string:
+			if n, err := strconv.Atoi(x); err == nil {
+				nk = n
+			} else {
+				nk = x + "'"
+			}
+		default:
+			nk = fmt.Sprint(x)
+		}
+		if c.f.MapIndex(reflect.ValueOf(&nk).Elem()).IsValid() {
+			return ""
+		}
+		c.f.SetMapIndex(k, reflect.Value{})
+		c.f.SetMapIndex(reflect.ValueOf(&nk).Elem(), val)
+		return fmt.Sprintf("%s (key %T %v -> %T %v)", c.name, k.Interface(), k.Interface(), nk, nk)
+	case reflect.Uint, reflect.Uint8, reflect.Uint16, reflect.Uint32, reflect.Uint64:
+		c.f.SetUint(c.f.Uint() + 1)
+	default:
+		c.f.SetInt(c.f.Int() + 1)
+	}
+	return c.name + " (+1)"
 }
 
 // normalise makes decoded and described rules comparable (nil vs empty specific-item maps).
